@@ -168,3 +168,22 @@ Definition meets (w : want) (n : Z) : Prop :=
 
 Definition color_meets (w : color4 want) (c : color4 Z) : Prop :=
   meets (c0 w) (c0 c) /\ meets (c1 w) (c1 c) /\ meets (c2 w) (c2 c) /\ meets (c3 w) (c3 c).
+
+(* ---- C14: what "the same is transmitted" means.  Two raw HSBK quadruples are the same colour
+   when they agree component-wise (hue modulo 0 = 65535), or both are black (brightness 0), or
+   both are without saturation and equally bright -- in the last two cases the hue (and for
+   black the saturation) does not influence the colour (see [rgb_exact]). *)
+Definition same_colour (a b : color4 Z) : Prop :=
+  c3 a = c3 b /\
+  ((c2 a = 0 /\ c2 b = 0)%Z \/
+   (c1 a = 0 /\ c1 b = 0 /\ c2 a = c2 b)%Z \/
+   (hue_equiv (c0 a) (c0 b) /\ c1 a = c1 b /\ c2 a = c2 b)).
+
+(* component-wise agreement, hue modulo 0 = 65535 (no rgb involved) *)
+Definition same_hsbk (a b : color4 Z) : Prop :=
+  hue_equiv (c0 a) (c0 b) /\ c1 a = c1 b /\ c2 a = c2 b /\ c3 a = c3 b.
+
+(* pending delays in milliseconds: equal, or the switch rounded a delay below 1/131072 ms to
+   none *)
+Definition delay_close (after before : Q) : Prop :=
+  after == before \/ (after == 0 /\ 0 <= before /\ before < 1 # 131072).
